@@ -1,4 +1,5 @@
 import RtcVerif.Model.C11
+import RtcVerif.Model.C11Csv
 import RtcVerif.Proofs.C11Lemmas
 import RtcVerif.Proofs.C11Roundtrip
 import RtcVerif.Proofs.C11Neq
@@ -223,6 +224,96 @@ theorem C11_csv_idempotent (x : Rat) : round6 (round6 x) = round6 x := by
 theorem C11_csv_tie_witness :
     round6 (1 / 128) = 7812 / 1000000 ∧ round6 (3 / 128) = 23438 / 1000000 := by
   constructor <;> decide +kernel
+
+/-! ### what `csv.py` itself decides (record-level model `Model/C11Csv.lean`) -/
+
+/-- **`save`: one format per column** — the format list has one entry per column; every value
+    column is printed with `%f` (six decimals, `C11_csv_precision`), the first column with `%s`
+    exactly when it holds the time stamps. -/
+theorem C11_csv_fmt (withTime : Bool) (ncols : Nat) (hn : 0 < ncols) :
+    (fmtList withTime ncols).length = ncols ∧
+    ∀ j, j < ncols → (fmtList withTime ncols)[j]? = some (if withTime = true ∧ j = 0 then Fmt.s else Fmt.f) := by
+  unfold fmtList
+  cases withTime with
+  | false =>
+    simp only [Bool.false_eq_true, if_false, List.length_replicate, false_and, true_and]
+    intro j hj
+    simp [hj]
+  | true =>
+    simp only [if_true, List.length_append, List.length_cons, List.length_nil, List.length_replicate, true_and]
+    refine ⟨by omega, ?_⟩
+    intro j hj
+    cases j with
+    | zero => simp
+    | succ k =>
+      have hk : k < ncols - 1 := by omega
+      simp [hk]
+
+/-- **`load`, semicolon dialect with decimal commas: every column has its converter and every
+    float-converted column has a NaN filling value** (repaired code, finding F50): for a header
+    with `nSemi` separators, column `j` gets `_string_to_float` iff `j ≤ nSemi` and it is not the
+    time column; the time converter sits on column 0 only, with `with_time`; the filling keys are
+    exactly the float-converted columns. -/
+theorem C11_csv_converters (withTime : Bool) (nSemi nComma : Nat) (hc : nComma ≠ 0) (j : Nat) :
+    ((j, Conv.flt) ∈ convTable withTime true nSemi nComma ↔ (j ≤ nSemi ∧ (withTime = true → j ≠ 0))) ∧
+    ((j, Conv.time) ∈ convTable withTime true nSemi nComma ↔ (withTime = true ∧ j = 0)) ∧
+    (j ∈ fillKeys (convTable withTime true nSemi nComma) ↔ (j, Conv.flt) ∈ convTable withTime true nSemi nComma) := by
+  have hfill : ∀ c : List (Nat × Conv), j ∈ fillKeys c ↔ (j, Conv.flt) ∈ c := by
+    intro c
+    unfold fillKeys
+    simp only [List.mem_map, List.mem_filter, beq_iff_eq]
+    constructor
+    · rintro ⟨⟨a, b⟩, ⟨hm, hb⟩, ha⟩
+      simp only at hb ha
+      subst hb; subst ha; exact hm
+    · intro hm
+      exact ⟨(j, Conv.flt), ⟨hm, rfl⟩, rfl⟩
+  refine ⟨?_, ?_, hfill _⟩
+  · unfold convTable
+    cases withTime with
+    | false =>
+      simp only [hc, Bool.true_and, bne_iff_ne, ne_eq, not_false_eq_true, if_true, Bool.false_eq_true,
+        if_false, List.nil_append, List.length_nil, List.mem_map, List.mem_range, Prod.mk.injEq, and_true, false_imp_iff]
+      constructor
+      · rintro ⟨i, hi, rfl⟩; omega
+      · intro h; exact ⟨j, by omega, by omega⟩
+    | true =>
+      simp only [hc, Bool.true_and, bne_iff_ne, ne_eq, not_false_eq_true, if_true,
+        List.length_cons, List.length_nil, List.mem_append, List.mem_cons, List.mem_map, List.mem_range, Prod.mk.injEq,
+        List.not_mem_nil, or_false, and_true, forall_const, reduceCtorEq, and_false, false_or]
+      constructor
+      · rintro ⟨i, hi, rfl⟩; omega
+      · intro h; exact ⟨j - 1, by omega, by omega⟩
+  · unfold convTable
+    cases withTime with
+    | false => simp [hc]
+    | true => simp [hc]
+
+/-- **cell round trip**: a value printed with `%f` (decimal point or comma) and loaded through the
+    float converter is the six-decimal value (finite values: `round6`, so `C11_csv_precision`
+    bounds the error; NaN / ±inf unchanged); an empty cell of a filled column is missing (NaN), not
+    0.0; printing a loaded value again changes nothing. -/
+theorem C11_csv_cell_roundtrip (x : XVal) (cm filled : Bool) :
+    loadFltCell filled (saveCell Fmt.f (Cell.num x cm)) = some (print6X x) ∧
+    loadFltCell true Cell.empty = some XVal.nan ∧
+    (∀ q : Rat, print6X (XVal.fin q) = XVal.fin (round6 q)) ∧
+    print6X (print6X x) = print6X x := by
+  refine ⟨rfl, rfl, fun q => rfl, ?_⟩
+  cases x with
+  | nan => rfl
+  | e v =>
+    cases v with
+    | fin q =>
+      show XVal.fin (round6 (round6 q)) = XVal.fin (round6 q)
+      rw [C11_csv_idempotent]
+    | pinf => rfl
+    | ninf => rfl
+
+example : fmtList true 3 = [Fmt.s, Fmt.f, Fmt.f] := by decide
+example : convTable true true 2 3 = [(0, Conv.time), (1, Conv.flt), (2, Conv.flt)] := by decide
+example : fillKeys (convTable true true 2 3) = [1, 2] := by decide
+example : convTable false true 1 1 = [(0, Conv.flt), (1, Conv.flt)] := by decide
+example : loadFltCell false Cell.empty = some (XVal.fin 0) := rfl   -- the F50 behaviour without filling values
 
 /-! ## NetCDF time axis -/
 
